@@ -22,7 +22,7 @@ BOUNDS = {
              'increment_attempts, set_recipients_delivered [one round per '
              'message, any subset of 3 recipients, as list or as set], get, '
              'load, remove) over <=2 messages after an initial write, '
-             'timestamps symbolic reals, on each of the 4 backends; plus two '
+             'timestamps symbolic reals, on each of the 4 backends (DictStorage also on a copy-returning, shelve-like mapping); plus two '
              'operation sequences of length 3 on different ids running in '
              'overlapping greenlets with every start offset (yielding '
              'backends); load() overlapping at each of 16 offsets with '
@@ -63,6 +63,8 @@ def cells(tier):
                         'L': 3 if tier == 'quick' else 4})
             out.append({'kind': 'loadrace', 'backend': b,
                         'offsets': 16 if tier == 'quick' else 32})
+    # DictStorage on a mapping that returns copies (shelve)
+    out.append({'kind': 'seq', 'backend': 'shelf', 'L': L, 'form': 'list'})
     return out
 
 
